@@ -3,6 +3,7 @@ import Fabio.Lemmas.C05Text
 import Fabio.Lemmas.C05Rebuild
 import Fabio.Lemmas.C05Glue
 import Fabio.Lemmas.C05Lang
+import Fabio.Lemmas.C05Fix
 /-!
 C05 — route commands mean what the command language says: property theorems.
 
@@ -700,6 +701,83 @@ example := commands_as_text (env := C05Rebuild.env0) csT csT_ok
 
 end lang
 
+/-! ### round 4: case-insensitivity for whole scripts -/
+
+/-- two commands that differ only in the letter case of the host of their source -/
+def CaseEq (d d' : RouteDef) : Prop :=
+  ∃ (d0 : RouteDef) (h h' rest : Str), d = { d0 with src := h ++ rest } ∧ d' = { d0 with src := h' ++ rest } ∧
+    lowerL h = lowerL h' ∧ '/' ∉ h ∧ '/' ∉ h' ∧ (rest = [] ∨ ∃ r, rest = '/' :: r)
+
+theorem applyDef_caseEq {d d' : RouteDef} (h : CaseEq d d') (t : Table) : applyDef env t d = applyDef env t d' := by
+  obtain ⟨d0, h1, h2, rest, rfl, rfl, hl, hs, hs', hr⟩ := h
+  unfold applyDef
+  cases hc : d0.cmd with
+  | add => exact host_case_insensitive_add (d := d0) h1 h2 rest hl hs hs' hr
+  | del => exact host_case_insensitive_del (d := d0) h1 h2 rest hl hs hs' hr
+  | weight => exact host_case_insensitive_weight (d := d0) h1 h2 rest hl hs hs' hr
+  | other s => rfl
+
+/-- **host_case_insensitive_script**: re-casing the host of any number of commands of a script — adds, dels and
+weights alike — does not change what `NewTable`/`NewTableCustom` returns (same table or same error) -/
+theorem host_case_insensitive_script (ps : List (RouteDef × RouteDef)) (h : ∀ p ∈ ps, CaseEq p.1 p.2) :
+    newTable env (ps.map (·.1)) = newTable env (ps.map (·.2)) := by
+  unfold newTable buildFrom
+  have : ∀ t0 : Table, (ps.map (·.1)).foldlM (applyDef env) t0 = (ps.map (·.2)).foldlM (applyDef env) t0 := by
+    induction ps with
+    | nil => intro t0; rfl
+    | cons p l ih =>
+      intro t0
+      simp only [List.map_cons]
+      rw [List.foldlM_cons, List.foldlM_cons, applyDef_caseEq (h p (by simp)) t0]
+      cases applyDef env t0 p.2 with
+      | error e => rfl
+      | ok t1 => exact ih (fun q hq => h q (List.mem_cons_of_mem _ hq)) t1
+  rw [this]
+
+/-- not vacuous: `Foo.COM/x` and `foo.com/x` in a `route weight` -/
+example : CaseEq { cmd := .weight, service := ['s'], src := "Foo.COM".toList ++ "/x".toList, weight := 1 }
+    { cmd := .weight, service := ['s'], src := "foo.com".toList ++ "/x".toList, weight := 1 } :=
+  ⟨{ cmd := .weight, service := ['s'], weight := 1 }, "Foo.COM".toList, "foo.com".toList, "/x".toList, rfl, rfl,
+    by decide, by decide, by decide, Or.inr ⟨['x'], rfl⟩⟩
+
+/-! ### round 4: the text is a canonical form and a fixpoint (`Lemmas/C05Fix.lean`) -/
+
+/-- **render_is_canonical**: the text is a function of the routing map — two well-formed tables without empty
+routes, each host's routes in final-sort order (every table `NewTable` returns is such a table), that route the
+same targets up to the computed shares, have the same `String()` -/
+theorem render_is_canonical {a b : Table} (ha : Good env a) (hb : Good env b) (hsa : C05Fix.Sorted a) (hsb : C05Fix.Sorted b)
+    (hc : ∀ h p, (abs a h p).map core = (abs b h p).map core) : render a = render b :=
+  C05Fix.render_canonical ha.inv.wf hb.inv.wf ha.inv.noEmpty hb.inv.noEmpty hsa hsb hc
+
+/-- what `NewTable` returns is in final-sort order -/
+theorem newTable_sorted {defs : List RouteDef} (h : newTable env defs = .ok t) : C05Fix.Sorted t :=
+  C05Fix.newTable_sorted h
+
+/-- **rendered_text_is_fixpoint**: under the hypotheses of `render_parse_roundtrip`, for a table in final-sort order
+(as `NewTable` returns it), the table rebuilt from `t.String()` renders to the text of `t` with every weight rounded
+to the four decimals the text carries and the options sorted (`normTable`): the same lines in the same order,
+except that a weight that rounds to `0.0000` is no longer written -/
+theorem rendered_text_is_fixpoint (pf : ParseFloat)
+    (hpf : ∀ w : Rat, 0 < w → pf (fmt4 w) = some (.fin (round4Rat w)))
+    (hg : Good env t) (hs : C05Fix.Sorted t)
+    (htext : ∀ hst, ∀ r ∈ t.get hst, ∀ tg ∈ r.targets, C05Text.TextOK r tg)
+    (ho : C05Rebuild.RebuildOK env t) :
+    ∃ t2, loadTable env pf (render t) = .ok t2 ∧ render t2 = render (C05Fix.normTable t) := by
+  have hparse := C05Text.parse_render pf hpf t htext
+  have hspec := C05Rebuild.rebuild_spec hg.inv ho
+  have href := C05Main.refines_spec (env := env) (defsOfTable t)
+  rw [hspec] at href
+  cases hn : newTable env (defsOfTable t) with
+  | error e => rw [hn] at href; cases href
+  | ok t2 =>
+    rw [hn] at href
+    simp only [Except.map] at href
+    injection href with href
+    refine ⟨t2, ?_, C05Fix.render_of_rebuilt hg.inv hs (good_newTable hn).inv (C05Fix.newTable_sorted hn) href⟩
+    unfold loadTable
+    rw [hparse]; simp only; rw [hn]
+
+
 /-! ### the forced hypotheses are necessary (witnesses; the same inputs are replayed on the real code from
 `corpus/c05.roundtrip.jsonl`, where they are recorded findings) -/
 
@@ -760,6 +838,11 @@ theorem round_trip_instance :
          (fun k => abs t2 k.1 k.2 == weigh ((abs C05Rebuild.tab0 k.1 k.2).map norm4))
      | .error _ => false) = true := by
   decide +kernel
+
+/-- `rendered_text_is_fixpoint` evaluated on the same table: the rebuilt table's text is the normalised text -/
+example : (match loadTable envW pfW (render C05Rebuild.tab0) with
+    | .ok t2 => render t2 == render (C05Fix.normTable C05Rebuild.tab0) && !(render t2).isEmpty
+    | .error _ => false) = true := by decide +kernel
 
 end witnesses
 
